@@ -56,4 +56,77 @@ theorem wordReading_null {s : List Char} (h : wordReading? s = some .null) : s â
   Â· repeat' split at h
     all_goals simp at h
 
+/-! ## references to environment variables (`substitute`) and quoted texts -/
+
+theorem isNameChar_close : isNameChar '}' = false := by decide
+
+/-- text without `$` is copied -/
+theorem substGo_text_append (vs : Vars) (pre rest : List Char) (h : noDollar pre = true) :
+    substGo vs .text (pre ++ rest) = (substGo vs .text rest).map (pre ++ Â·) := by
+  induction pre with
+  | nil => simp
+  | cons c r ih =>
+    simp only [noDollar, List.all_cons, Bool.and_eq_true, bne_iff_ne, ne_eq] at h
+    have hc : (c == '$') = false := by simpa using h.1
+    have ih' := ih (by simpa [noDollar] using h.2)
+    simp only [List.cons_append, substGo, hc, ih', Bool.false_eq_true, if_false]
+    cases substGo vs .text rest <;> simp
+
+/-- the scanner collects the characters of a name -/
+theorem substGo_name (vs : Vars) (n acc post : List Char) (h : n.all isNameChar = true) :
+    substGo vs (.name acc) (n ++ '}' :: post) = substGo vs (.name (n.reverse ++ acc)) ('}' :: post) := by
+  induction n generalizing acc with
+  | nil => simp
+  | cons c r ih =>
+    simp only [List.all_cons, Bool.and_eq_true] at h
+    simp [substGo, h.1, ih _ h.2]
+
+theorem substGo_close (vs : Vars) (acc post : List Char) :
+    substGo vs (.name acc) ('}' :: post)
+      = if nameOk acc.reverse then (substGo vs .text post).map (vs.contents acc.reverse ++ Â·) else none := by
+  simp [substGo, isNameChar_close]
+
+theorem nameOk_all {n : List Char} (h : nameOk n = true) : n.all isNameChar = true := by
+  cases n with
+  | nil => simp [nameOk] at h
+  | cons c r =>
+    simp only [nameOk, Bool.and_eq_true] at h
+    simp [h.1.2, h.2]
+
+/-- a reference is replaced by the contents of the variable, whatever stands around it -/
+theorem substitute_reference (vs : Vars) (pre n post : List Char) (hp : noDollar pre = true) (hn : nameOk n = true) :
+    substitute vs (pre ++ (plainRef n ++ post))
+      = (substitute vs post).map (fun s => pre ++ (vs.contents n ++ s)) := by
+  unfold substitute plainRef
+  rw [substGo_text_append vs pre _ hp]
+  have h1 : substGo vs .text ('$' :: '{' :: (n ++ ['}']) ++ post) = substGo vs (.name []) (n ++ '}' :: post) := by
+    simp [substGo]
+  rw [h1, substGo_name vs n [] post (nameOk_all hn), substGo_close]
+  simp only [List.append_nil, List.reverse_reverse, hn, if_true, Option.map_map]
+  rfl
+
+theorem substitute_noDollar (vs : Vars) (t : List Char) (h : noDollar t = true) : substitute vs t = some t := by
+  have := substGo_text_append vs t [] h
+  simpa [substitute, substGo] using this
+
+/-- a double-quoted one-line text without inner quotes or escapes is the string between the quotes, whatever it looks
+    like (`"0815"`, `"true"`, `"null"`) -/
+theorem readText_dquoted (v : List Char) (h : dquoteSafe v = true) : readText (dquoted v) = some (.str v) := by
+  have ht : trimSpaces (dquoted v) = dquoted v := by
+    simp [trimSpaces, dquoted]
+  unfold readText
+  simp only [ht]
+  simp only [dquoted, List.reverse_append, List.reverse_cons, List.reverse_nil, List.nil_append, List.singleton_append]
+  simp only [dquoteSafe] at h
+  simp [List.all_reverse, h]
+
+theorem readText_squoted (v : List Char) (h : squoteSafe v = true) : readText (squoted v) = some (.str v) := by
+  have ht : trimSpaces (squoted v) = squoted v := by
+    simp [trimSpaces, squoted]
+  unfold readText
+  simp only [ht]
+  simp only [squoted, List.reverse_append, List.reverse_cons, List.reverse_nil, List.nil_append, List.singleton_append]
+  simp only [squoteSafe] at h
+  simp [List.all_reverse, h]
+
 end Heimdall.Config
